@@ -118,7 +118,7 @@ def input_class(arrays):
     return "%s/rank%d/n%d" % (dt, rank, len(arrays))
 
 
-def compare(result, ref_cells, shape, sigbase, check_values=True, stats=None):
+def compare(result, ref_cells, shape, sigbase, check_values=True, stats=None, floor=None):
     """Compare an implementation result with reference cells.
 
     Returns a list of Failures with signatures `<sigbase>|<kind>`.  `stats`, if given, is a
@@ -155,7 +155,7 @@ def compare(result, ref_cells, shape, sigbase, check_values=True, stats=None):
         if isinstance(x, float) and (math.isnan(x) or math.isinf(x)):
             fails.append(Failure("%s|value" % sigbase, "cell %d is %r, expected %r" % (i, x, float(ref.v))))
             break
-        if not V.close(x, ref):
+        if not (V.close(x, ref) if floor is None else V.close(x, ref, floor)):
             fails.append(
                 Failure("%s|value" % sigbase, "cell %d is %r, expected %r (bound %.3g)" % (i, x, float(ref.v), float(ref.e)))
             )
